@@ -261,9 +261,6 @@ func (g *dgen) value(t *tdesc, depth int) *node {
 	case tString:
 		return &node{k: nStr, s: kit.Choose(g.r, strPool)}
 	case tDuration:
-		if g.r.Chance(0.2) {
-			return &node{k: nInt, i: int64(g.r.Range(0, 5000000))}
-		}
 		return &node{k: nStr, s: kit.Choose(g.r, durPool)}
 	case tSlice:
 		n := &node{k: nArr, arr: []*node{}}
@@ -411,7 +408,12 @@ func (g *dgen) mutate(root *node, wantNull bool) string {
 	var what string
 	str := func(x string) { v, what = &node{k: nStr, s: x}, "string" }
 	intg := func(x int64) { v, what = &node{k: nInt, i: x}, "int" }
-	fint := func(x float64) { v, what = &node{k: nFloat, f: x, fexp: r.Chance(0.1)}, "float-integral" }
+	// a number put where a string is expected is accepted by go-zero with its spelling, so the
+	// canonical spelling (shortest digits, decimal point, no exponent) is used there: an exponent
+	// is lexical detail that the YAML/TOML data models cannot carry
+	fint := func(x float64) {
+		v, what = &node{k: nFloat, f: x, fexp: t.k != tString && r.Chance(0.1)}, "float-integral"
+	}
 	ffrac := func(x float64) { v, what = &node{k: nFloat, f: x}, "float-fractional" }
 	boolean := func() { v, what = &node{k: nBool, b: r.Bool()}, "bool" }
 	arr := func() {
@@ -485,7 +487,6 @@ func (g *dgen) mutate(root *node, wantNull bool) string {
 			fint(kit.Choose(r, []float64{1, 0, 12, -3}))
 		case 2:
 			ffrac(kit.Choose(r, []float64{1.5, 1e-7, 0.25, 1e21, 1e22, 123456.789}))
-			v.fexp = r.Chance(0.2)
 		case 3:
 			boolean()
 		case 4:
@@ -507,15 +508,17 @@ func (g *dgen) mutate(root *node, wantNull bool) string {
 			arr()
 		}
 	case tDuration:
-		switch r.Pick(3, 2, 3, 1) {
+		switch r.Pick(3, 2, 3, 1, 3) {
 		case 0:
 			fint(kit.Choose(r, []float64{1000, 1, 0}))
 		case 1:
 			ffrac(1.5)
 		case 2:
 			str(kit.Choose(r, []string{"abc", "1", "", "5 s", "1d"}))
-		default:
+		case 3:
 			boolean()
+		default:
+			intg(int64(r.Range(0, 5000000)))
 		}
 	case tStruct:
 		switch r.Pick(2, 2, 2, 1, 1) {
